@@ -216,6 +216,78 @@ Definition wf_kind (k : kind_orders) : bool := cfg_ok (kind_cfg k None) && N.ltb
 Definition wf_kinds (l : list kind_orders) : bool :=
   Nat.eqb (length l) 3 && forallb wf_kind l && lN_eqb (map k_name l) [0%N; 1%N; 2%N].
 
+(* ---------- the history buffer over time ----------
+   What a statement of the producer's code may do to the history buffer APART from pushing a frame (Rec).  The emitters
+   only push; the end of run_session / finalize_snapshot only READS the buffer (under its lock) to write the snapshot
+   file.  BTake / BRestore = `let frames = std::mem::take(&mut *buf.lock().await); … ; *buf.lock().await = frames;`
+   (the buffer is EMPTY in between), BClear = clear() / `= Vec::new()` / drain(..), BTruncate k = truncate(k) / split_off(k).
+   tools/gen/stream_order.py lists every such statement of session.rs / runner.rs / tasks/mod.rs (gen_buffer_ops). *)
+Inductive bufop := BRead | BTake | BRestore | BClear | BTruncate (k : nat).
+Definition bufop_reads (o : bufop) : bool := match o with BRead => true | _ => false end.
+Definition buffer_ops_ok (ops : list bufop) : bool := forallb bufop_reads ops.
+(* (buffer, frames moved out of it) after the statement *)
+Definition bufop_apply (o : bufop) (h taken : list nat) : list nat * list nat :=
+  match o with
+  | BRead => (h, taken)
+  | BTake => ([], h)
+  | BRestore => (taken, [])
+  | BClear => ([], taken)
+  | BTruncate k => (firstn k h, taken)
+  end.
+(* EA a: a step of the stream model; EB: the producer's code executes its next buffer statement.  The schedule decides
+   WHEN: at the end of the run (where today's code has them) or anywhere else. *)
+Inductive eactor := EA (a : actor) | EB.
+Record est := { e_st : st; e_ops : list bufop; e_taken : list nat }.
+Definition set_hist (s : st) (h : list nat) : st := {| g_prog := g_prog s; g_hist := h; g_subs := g_subs s |}.
+Definition estep (c : cfg) (s : est) (a : eactor) : est :=
+  match a with
+  | EA a' => {| e_st := step c (e_st s) a'; e_ops := e_ops s; e_taken := e_taken s |}
+  | EB => match e_ops s with
+          | [] => s
+          | o :: r => {| e_st := set_hist (e_st s) (fst (bufop_apply o (g_hist (e_st s)) (e_taken s)));
+                         e_ops := r; e_taken := snd (bufop_apply o (g_hist (e_st s)) (e_taken s)) |}
+          end
+  end.
+Definition erun (c : cfg) (sched : list eactor) (s : est) : est := fold_left (estep c) sched s.
+Definition einit (c : cfg) (n m : nat) (ops : list bufop) : est := {| e_st := init c n m; e_ops := ops; e_taken := [] |}.
+Definition efinal (c : cfg) (n m : nat) (ops : list bufop) (sched : list eactor) : est := erun c sched (einit c n m ops).
+(* the recorded history after the schedule *)
+Definition ehist (c : cfg) (n m : nat) (ops : list bufop) (sched : list eactor) : list nat := g_hist (e_st (efinal c n m ops sched)).
+Definition is_prefix (a b : list nat) : Prop := exists ext, b = a ++ ext.
+(* the recorded history is MONOTONE: prefix-ordered over time (what a subscriber snapshots at any moment is a prefix of
+   what any later moment holds) *)
+Definition HistMonotone (c : cfg) (n m : nat) (ops : list bufop) (sched : list eactor) : Prop :=
+  forall s1 s2 s3, sched = s1 ++ s2 ++ s3 -> is_prefix (ehist c n m ops s1) (ehist c n m ops (s1 ++ s2)).
+(* the schedule without the buffer statements *)
+Definition eproj (sched : list eactor) : list actor := flat_map (fun a => match a with EA a' => [a'] | EB => [] end) sched.
+
+(* ---------- the thread kind's history source ----------
+   thread_stream_events snapshots with ContinuityStore::replay_events = the per-thread sidecar when
+   ContinuityStreamCache::try_replay accepts it, else the truth log.  try_replay walks the sidecar with a counter:
+   `if event.seq != expected_seq { Err }; expected_seq += 1` starting at 0, and rejects an empty file. *)
+Inductive seqcheck := SeqExact | SeqIncreasing.   (* `seq != expected` ; expected+1   |   `seq < expected` ; seq+1 *)
+Fixpoint sidecar_ok (m : seqcheck) (expected : nat) (l : list nat) : bool :=
+  match l with
+  | [] => true
+  | k :: r => match m with
+              | SeqExact => Nat.eqb k expected && sidecar_ok m (S expected) r
+              | SeqIncreasing => Nat.leb expected k && sidecar_ok m (S k) r
+              end
+  end.
+Record replay_check := { r_first : nat; r_cmp : seqcheck }.
+Definition replay_ok (r : replay_check) : bool :=
+  Nat.eqb (r_first r) 0 && match r_cmp r with SeqExact => true | SeqIncreasing => false end.
+(* side = None: no sidecar file *)
+Definition thread_history (r : replay_check) (side : option (list nat)) (log : list nat) : list nat :=
+  match side with
+  | Some (k :: l) => if sidecar_ok (r_cmp r) (r_first r) (k :: l) then k :: l else log
+  | _ => log
+  end.
+(* the sidecar of a thread with frames 0..n-1 after the cache was lost when the thread had j frames and the thread was
+   appended to afterwards (append_best_effort re-creates the file): the frames j..n-1; nothing if no append followed *)
+Definition sidecar_after_loss (n j : nat) : option (list nat) :=
+  if Nat.ltb j n then Some (seq j (n - j)) else None.
+
 (* ---------- correspondence ---------- *)
 Definition enc_list (l : list nat) : list N := nlen l :: map N.of_nat l.
 Definition observe (c : cfg) (s : st) : list N :=
